@@ -61,6 +61,18 @@ def gen_spec(rng, **over):
     for k in range(npat):
         ln = rng.choice([1, 2, 3, 4, 5, 6, 7, 8, 12, 24, 30])
         spec['patterns']['PAT%d' % (k + 1)] = [_round(rng.uniform(0.3, 1.8), 4) for _ in range(ln)]
+    # multipliers that are exactly zero (demand switched off for a pattern step, also the first one): drawn from a side stream
+    # so that everything else in the corpus stays what it was
+    import random as _random
+    for pn_, mult_ in spec['patterns'].items():
+        r2 = _random.Random(int(sum(mult_) * 1e6) + len(mult_))
+        if len(mult_) >= 2 and r2.random() < 0.2:
+            idx = set(r2.sample(range(len(mult_)), min(len(mult_) - 1, r2.randint(1, 2))))
+            if r2.random() < 0.5:
+                idx.add(0)
+            if len(idx) < len(mult_):
+                for i_ in idx:
+                    mult_[i_] = 0.0
     pat_names = list(spec['patterns'])
 
     # ---- junctions
